@@ -27,3 +27,41 @@ if not _f.startswith(SRC + os.sep):
     raise RuntimeError(f"tawazi imported from {_f}, expected under {SRC}")
 
 sched.post_import_rebind()
+
+try:  # loguru's default sink writes to stderr, which is a pipe nobody reads while a shard runs: records of the
+    # debug-logging axis go to the null sink of process_env() only
+    from loguru import logger as _logger
+
+    _logger.remove()
+except Exception:  # noqa: BLE001
+    pass
+
+
+import contextlib  # noqa: E402
+import warnings  # noqa: E402
+from typing import Any, Iterator  # noqa: E402
+
+
+@contextlib.contextmanager
+def process_env(log_debug: bool = False, warn_error: bool = False) -> Iterator[None]:
+    """A legal but unusual state of the process around tawazi (environment axes of the generated cases):
+    log_debug  - tawazi's loguru logging is switched on and a sink listens at DEBUG level (every record, lazy ones
+                 included, is really formatted);
+    warn_error - warnings are errors (python -W error)."""
+    sink: Any = None
+    if log_debug:
+        from loguru import logger
+
+        logger.enable("tawazi")
+        sink = logger.add(lambda _m: None, level="DEBUG")
+    try:
+        with warnings.catch_warnings():
+            if warn_error:
+                warnings.simplefilter("error")
+            yield
+    finally:
+        if log_debug:
+            from loguru import logger
+
+            logger.remove(sink)
+            logger.disable("tawazi")
